@@ -36,6 +36,11 @@ type legacyPeer struct {
 	noiseDen int
 	noise    int
 	err      string
+	strict   bool // the peer offers strict KEX (and so does the Go side)
+	sent     int  // plaintext packets sent so far
+	insAt    int  // an on-path insertion in front of the peer's insAt-th plaintext packet (-1: none)
+	insKind  int
+	inserted bool
 }
 
 func (p *legacyPeer) myDir() int {
@@ -47,6 +52,18 @@ func (p *legacyPeer) myDir() int {
 
 // send frames, (encrypts) and writes one packet, preceded by noise sometimes.
 func (p *legacyPeer) send(payload []byte) bool {
+	if p.stream == nil {
+		if p.insAt == p.sent {
+			// before NEWKEYS nothing is authenticated: a packet put on the
+			// wire here is what an on-path attacker can insert
+			p.inserted = true
+			rt.Fault("strict-kex-inserted-packet")
+			if !p.sendRaw(insertedPayload(p.insKind)) {
+				return false
+			}
+		}
+		p.sent++
+	}
 	if p.noiseDen > 0 && p.c.Sim.ChooseP(1, p.noiseDen) {
 		for n := 1 + p.c.Choose(2); n > 0; n-- {
 			k := 2
@@ -140,9 +157,9 @@ func deriveKey(k, h, sid []byte, tag byte, n int) []byte {
 	return out[:n]
 }
 
-func kexInitPayload() []byte {
+func kexInitPayload(kexList string, follows bool) []byte {
 	ki := append([]byte{20}, make([]byte, 16)...)
-	ki = append(ki, nameList("curve25519-sha256")...)
+	ki = append(ki, nameList(kexList)...)
 	ki = append(ki, nameList("ssh-ed25519")...)
 	ki = append(ki, nameList("aes128-ctr")...)
 	ki = append(ki, nameList("aes128-ctr")...)
@@ -152,6 +169,9 @@ func kexInitPayload() []byte {
 	ki = append(ki, nameList("none")...)
 	ki = append(ki, nameList("")...)
 	ki = append(ki, nameList("")...)
+	if follows {
+		return append(ki, 1, 0, 0, 0, 0)
+	}
 	return append(ki, 0, 0, 0, 0, 0)
 }
 
@@ -166,7 +186,14 @@ func runLegacy(c *core.Ctx, s *Scenario) {
 	goDone, goOK := false, false
 	var goErr error
 	var goConn ssh.Conn
-	lp := &legacyPeer{c: c, server: peerIsServer, noiseDen: s.NoiseDen, mon: wiremon.New()}
+	lp := &legacyPeer{c: c, server: peerIsServer, noiseDen: s.NoiseDen, mon: wiremon.New(), strict: s.PeerStrict, insAt: -1}
+	if s.PeerStrict {
+		lp.noiseDen = 0
+		if s.InsKind != 0 {
+			lp.insAt, lp.insKind = s.InsAt, s.InsKind
+			lp.mon.Tolerant = true
+		}
+	}
 	lp.mon.KeepPayloads = true
 	lp.mon.Fail = func(oracle, msg string) {
 		c.Violate(prop, "legacy-"+oracle, "[legacy %s, %d noise packets] what the Go side sent does not decode for a peer that never negotiated strict KEX (sequence numbers must keep running across NEWKEYS): %s", s.Legacy, lp.noise, msg)
@@ -184,6 +211,9 @@ func runLegacy(c *core.Ctx, s *Scenario) {
 		go func() {
 			rt.SetName("go-client")
 			conf := &ssh.ClientConfig{User: "u", HostKeyCallback: ssh.FixedHostKey(sshsim.HostKey.PublicKey()), Config: cfg}
+			if s.Follows != 0 {
+				conf.HostKeyAlgorithms = []string{"ssh-ed25519"}
+			}
 			cc, chans, reqs, err := ssh.NewClientConn(a, "sim", conf)
 			goDone, goErr, goOK = true, err, err == nil
 			if err == nil {
@@ -229,6 +259,33 @@ func runLegacy(c *core.Ctx, s *Scenario) {
 	defer func() {
 		finished = true
 		c.Nontrivial()
+		desc := fmt.Sprintf("scripted %s, strict=%v, first_kex_packet_follows=%d", s.Legacy, s.PeerStrict, s.Follows)
+		if lp.inserted {
+			// strict KEX on both sides and a packet inserted before the first NEWKEYS
+			if goOK {
+				c.Violate(prop, "strict-kex-fault-accepted", "[%s] a packet of type %d was inserted in front of the peer's plaintext packet #%d (before the first NEWKEYS) and the handshake of the Go side completed", desc, lp.insKind, lp.insAt)
+				return
+			}
+			rt.Probe("scripted-peer-strict-insertion-refused")
+			c.State("scripted %s follows=%d insertion refused", s.Legacy, s.Follows)
+			return
+		}
+		if s.PeerStrict || s.Follows != 0 {
+			if lp.err != "" || !goOK {
+				c.Violate(prop, "scripted-peer-rejected", "[%s] an unmodified handshake with this peer did not work: script error %q, Go side done=%v err=%v", desc, lp.err, goDone, goErr)
+				return
+			}
+			rt.Probe(fmt.Sprintf("scripted-peer-ok-strict=%v-follows=%d", s.PeerStrict, s.Follows))
+			if !s.PeerStrict {
+				c.State("legacy %s follows=%d noise=%v", s.Legacy, s.Follows, lp.noise > 0)
+			} else {
+				c.State("scripted strict %s follows=%d", s.Legacy, s.Follows)
+			}
+			if goConn != nil {
+				goConn.Close()
+			}
+			return
+		}
 		if lp.err != "" || !goOK {
 			c.Violate(prop, "nonstrict-legacy-peer-rejected", "[legacy %s with %d interleaved IGNORE/DEBUG packets] the connection with a peer that does not offer strict KEX did not work: script error %q, Go side done=%v err=%v", s.Legacy, lp.noise, lp.err, goDone, goErr)
 			return
@@ -241,10 +298,44 @@ func runLegacy(c *core.Ctx, s *Scenario) {
 	myV, err := "SSH-2.0-legacy_peer", error(nil)
 	lp.mon.Feed(lp.myDir(), []byte(myV+"\r\n"))
 	lp.conn.Write([]byte(myV + "\r\n"))
-	myKI := kexInitPayload()
+	kexList := "curve25519-sha256"
+	if s.Follows == 1 {
+		kexList = "ecdh-sha2-nistp256,curve25519-sha256" // the Go side only does curve25519-sha256: a wrong guess
+	}
+	if s.PeerStrict {
+		if peerIsServer {
+			kexList += ",kex-strict-s-v00@openssh.com"
+		} else {
+			kexList += ",kex-strict-c-v00@openssh.com"
+		}
+	}
+	myKI := kexInitPayload(kexList, s.Follows != 0)
 	if !lp.send(myKI) {
 		fail("write KEXINIT")
 		return
+	}
+	priv, _ := ecdh.X25519().NewPrivateKey(bytesOf(byte(0x42+c.Choose(3)), 32))
+	myPub := priv.PublicKey().Bytes()
+	initSent := false
+	switch {
+	case s.Follows == 1 && !peerIsServer:
+		// the guessed first packet of ecdh-sha2-nistp256: to be ignored by the receiver
+		if !lp.send(append([]byte{30}, sshString(append([]byte{4}, bytesOf(0x5a, 64)...))...)) {
+			fail("write guessed packet")
+			return
+		}
+	case s.Follows == 1:
+		if !lp.send(append([]byte{31}, sshString([]byte("guessed"))...)) {
+			fail("write guessed packet")
+			return
+		}
+	case s.Follows == 2 && !peerIsServer:
+		// a right guess: this is the key exchange packet
+		if !lp.send(append([]byte{30}, sshString(myPub)...)) {
+			fail("write ECDH_INIT")
+			return
+		}
+		initSent = true
 	}
 	// the Go side's version line and KEXINIT (decoded by the monitor)
 	theirKI, ok := lp.recv()
@@ -253,8 +344,6 @@ func runLegacy(c *core.Ctx, s *Scenario) {
 		return
 	}
 	theirV := lp.mon.Version(1 - lp.myDir())
-	priv, _ := ecdh.X25519().NewPrivateKey(bytesOf(byte(0x42+c.Choose(3)), 32))
-	myPub := priv.PublicKey().Bytes()
 	var vc, vs string
 	var ic, is, qc, qs, ks, K []byte
 	hostBlob := sshsim.HostKey.PublicKey().Marshal()
@@ -273,7 +362,7 @@ func runLegacy(c *core.Ctx, s *Scenario) {
 		qc, qs, ks = q, myPub, hostBlob
 	} else {
 		vc, vs, ic, is = myV, theirV, myKI, theirKI
-		if !lp.send(append([]byte{30}, sshString(myPub)...)) {
+		if !initSent && !lp.send(append([]byte{30}, sshString(myPub)...)) {
 			fail("write ECDH_INIT")
 			return
 		}
@@ -347,6 +436,9 @@ func runLegacy(c *core.Ctx, s *Scenario) {
 		return
 	}
 	lp.enableEncryption()
+	if lp.strict {
+		lp.seq = 0 // strict KEX: sequence numbers restart after NEWKEYS
+	}
 	nk, ok := lp.recv()
 	if !ok || nk[0] != 21 {
 		fail("no NEWKEYS from the Go side (got %v)", nk)
